@@ -457,8 +457,9 @@ class GaussianEuclideanMetricSystem(EuclideanMetricSystem):
     def dh2_dmom(self, state: ChainState) -> ArrayLike:
         return self.metric.inv @ state.mom
 
-    @cache_in_state("pos")
     def dh2_dpos(self, state: ChainState) -> ArrayLike:
+        # Not cached in state as simply returns position, with caching position array
+        # meaning cached value shared with copies of state could be updated in-place
         return state.pos
 
     def h2_flow(self, state: ChainState, dt: ScalarLike) -> None:
